@@ -277,6 +277,21 @@ def analyze(ctx, want):
             grp = ins[0][3][2]
             ok2 = "item@" in S.fstr(cls) and S.mentions(grp, lambda x: x == fg[0][4]) if fg else False
             ob("C03.c", "signature-entry-is-(class, group-of-target)", ok and ok2, "insert(%s, %s)" % (S.fstr(cls)[:40], S.fstr(grp)[:60]), bt.loc())
+    # insert() itself appends exactly the given pair, unconditionally: a "deduplicating" insert that looks at the previous entry
+    # drops the entry of a class that leads into the same group as the class before it, and two states that differ in exactly
+    # that transition get one signature
+    for ti in F.fn_opt(r"TransitionsToPartitionGroups::insert$"):
+        ctx.analysed_fn(ti)
+        ex_i, ps_i = run_fn(ti, F, LogModel())
+        rp_i = ret_paths(ps_i)
+        ok_i = len(rp_i) == 1 and len(ps_i) == 1
+        det_i = "%d path(s), %d returning" % (len(ps_i), len(rp_i))
+        if ok_i:
+            pu_ = [e_ for e_ in rp_i[0].events if e_[0] == "call" and re.search(r"Vec::<.*>::(push|insert|extend\w*)$|VecDeque::<.*>::push_back$|BTree(Set|Map)::<.*>::insert$", e_[2])]
+            v_ = argval(pu_[0], 1) if len(pu_) == 1 and len(pu_[0][3]) == 2 else None
+            ok_i = v_ is not None and v_ == ("tuple", (("sym", "char_class"), ("sym", "partition_group"))) and not rp_i[0].conds
+            det_i = "appends %s under %d condition(s)" % (S.fstr(v_)[:60] if v_ is not None else [M.short_name(e_[2]) for e_ in pu_], len(rp_i[0].conds))
+        ob("C03.c", "signature-insert-appends-the-given-pair-unconditionally", ok_i, det_i, ti.loc())
     # nothing but insert() may touch the signature: the returned value is the accumulated list
     for p in ret_paths(paths):
         r = p.end[1]
